@@ -102,6 +102,9 @@ func (w *zzWorld) barrier() {
 // reconciliation tick plus the debounce expiry is enough for the callback to have run for it.
 func VerifHarness_ReloadConvergesOnFinalContent() {
 	zz.MaxPreempt(2)
+	if zz.Thorough() {
+		zz.MaxPreempt(3)
+	}
 	w := &zzWorld{file: 1, timerCh: make(chan time.Time, 1), tickCh: make(chan time.Time, 1),
 		events: make(chan fsnotify.Event), errs: make(chan error), cbFails: zz.Bool()}
 	w.install()
@@ -118,10 +121,7 @@ func VerifHarness_ReloadConvergesOnFinalContent() {
 	initial := w.fp() // watchWithOptions fingerprints the file before it starts the loop
 	zz.Go(func() { runWatchLoop(ctx, zzPath, zzDir, zzName, initial, &zzWatcher{w}, w.callback, opts) })
 
-	steps := 3
-	if zz.Thorough() {
-		steps = 4
-	}
+	steps := 3 // the thorough tier keeps three actions and allows one more preemption
 	notify := func() {
 		if watching {
 			w.events <- fsnotify.Event{Name: zzPath, Op: fsnotify.Write}
